@@ -125,6 +125,17 @@ CHECKS = {
             "equalities of flat programs; single-qubit bodies (dedicated unitary path) with bound symbols and global phases.",
             "Flattening rules transcribed from the CircuitOperation docstrings; repeat_until loops and parent_path not generated "
             "yet; <=4 qubits, <=6 recorded digits.", "DESIGN.md 5/C12"),
+    "C16": ("exploration", "runtime monitor on the Google wire-format writers/readers + structural lock-step comparator, proto-level walk and plain-Python models",
+            "Generated programs over the serializable vocabulary (numeric/symbol/expression arguments, every supported tag type, "
+            "classical controls, CircuitOperations; palettes that force second/third uses, equal-but-distinct and nearly-equal "
+            "operations, tags, moments and sub-circuits so every constants-table hit/miss pattern occurs) go through "
+            "CIRCUIT_SERIALIZER serialize/deserialize (also multi-program and circuit-function forms); a structural comparator "
+            "walks original and result in lock-step (float32 tolerance where the proto field is float), the proto is walked for "
+            "index ranges and unreferenced constants, and unitaries are compared for <=5 qubits; sweeps/run contexts are compared "
+            "by enumerated assignments, results/pack_bits for every repetition count 0..70 against plain-Python bit lists, v1 "
+            "formats likewise; GridDevice round trips and accept/reject decisions against harness-built specifications.",
+            "Uses Cirq's own value equality to decide which uses may share a constant (documented collapses accepted); "
+            "api.v2.ndarrays only through arg_to_proto.", "DESIGN.md 5/C16"),
 }
 
 PENDING_REASON = "check not built yet in this round; design in DESIGN.md section 5 (runtime monitor + reference oracle)"
